@@ -1,0 +1,45 @@
+//go:build verif
+
+package link_solicit_controller
+
+import (
+	"github.com/aperturerobotics/bifrost/link"
+	link_solicit "github.com/aperturerobotics/bifrost/link/solicit"
+	"github.com/aperturerobotics/controllerbus/directive"
+	"github.com/sirupsen/logrus"
+)
+
+// VerifSolicitEntries runs getSolicitEntries for the given directives on a link.
+func VerifSolicitEntries(dirs []link_solicit.SolicitProtocol, ml link.MountedLink) []link_solicit.SolicitEntry {
+	c := &Controller{solicitations: make(map[*solicitState]struct{})}
+	for _, d := range dirs {
+		c.solicitations[&solicitState{dir: d}] = struct{}{}
+	}
+	return c.getSolicitEntries(ml)
+}
+
+// VerifComputeHashes runs computeHashes (sort + truncation to maxHashes).
+func VerifComputeHashes(maxHashes uint32, sessionID []byte, entries []link_solicit.SolicitEntry) [][]byte {
+	c := &Controller{maxHashes: maxHashes}
+	return c.computeHashes(&linkState{sessionID: sessionID}, entries)
+}
+
+// VerifResolveMatch runs resolveMatch for the given directives / handlers on a link.
+func VerifResolveMatch(
+	le *logrus.Entry,
+	dirs []link_solicit.SolicitProtocol,
+	handlers []directive.ResolverHandler,
+	ml link.MountedLink,
+	sessionID []byte,
+	hash []byte,
+	ms link.MountedStream,
+) {
+	c := &Controller{le: le, solicitations: make(map[*solicitState]struct{})}
+	for i, d := range dirs {
+		c.solicitations[&solicitState{dir: d, handler: handlers[i]}] = struct{}{}
+	}
+	c.resolveMatch(&linkState{le: le, ml: ml, sessionID: sessionID}, hash, ms)
+}
+
+// VerifMaxMessageSize returns the control stream message size limit.
+func VerifMaxMessageSize() uint32 { return maxMessageSize }
